@@ -484,6 +484,16 @@ func utxoCase1(u *bt.UTXO) {
 	if !same(u2) {
 		c.Violate("json.Marshal(*bt.UTXO)/roundtrip-fields", "txid/vout/script/satoshis differ", in)
 	}
+	// the same documents into objects that already hold another UTXO (a variable reused in a loop): nothing of what
+	// they held before shows afterwards
+	u4 := &bt.UTXO{TxID: bytes.Repeat([]byte{4}, 32), Vout: 44, Satoshis: 444, LockingScript: bscript.NewFromBytes([]byte{0x76, 0xa9, 0x04, 0x88, 0xac})}
+	u5 := &bt.UTXO{TxID: bytes.Repeat([]byte{3}, 32), Vout: 33, Satoshis: 333, LockingScript: bscript.NewFromBytes([]byte{0x51, 0x52})}
+	if unmarshal("json.Marshal(*bt.UTXO)", ldoc, u4, in) && !same(u4) {
+		c.Violate("json.Marshal(*bt.UTXO)/result-depends-on-what-the-object-held-before", fmt.Sprintf("script %s, expected %s", scriptHex(u4.LockingScript), scriptHex(u.LockingScript)), in)
+	}
+	if unmarshal("json.Marshal(utxo.NodeJSON())", ndoc, u5.NodeJSON(), in) && u.Satoshis <= maxMoney && !same(u5) {
+		c.Violate("json.Marshal(utxo.NodeJSON())/result-depends-on-what-the-object-held-before", fmt.Sprintf("script %s, expected %s", scriptHex(u5.LockingScript), scriptHex(u.LockingScript)), in)
+	}
 	if u.Satoshis <= maxMoney && !same(u3) {
 		c.Violate("json.Marshal(utxo.NodeJSON())/roundtrip-fields", fmt.Sprintf("satoshis %d -> %d", u.Satoshis, u3.Satoshis), in)
 	}
@@ -534,8 +544,11 @@ func utxosCase1(us bt.UTXOs) {
 		return
 	}
 	// also into variables that already hold UTXOs
-	l3 := bt.UTXOs{{TxID: bytes.Repeat([]byte{9}, 32), Vout: 9, Satoshis: 9}, {TxID: bytes.Repeat([]byte{8}, 32), Vout: 8}}
-	n3 := append(make(bt.UTXOs, 0, 16), &bt.UTXO{TxID: bytes.Repeat([]byte{7}, 32), Vout: 7, Satoshis: 7}, &bt.UTXO{TxID: bytes.Repeat([]byte{6}, 32)}, &bt.UTXO{TxID: bytes.Repeat([]byte{5}, 32)})
+	old := func(b byte) *bt.UTXO { // what the variable held before: every field set
+		return &bt.UTXO{TxID: bytes.Repeat([]byte{b}, 32), Vout: uint32(b), Satoshis: uint64(b), SequenceNumber: 5, LockingScript: bscript.NewFromBytes([]byte{0x76, 0xa9, b, 0x88, 0xac})}
+	}
+	l3 := bt.UTXOs{old(9), old(8)}
+	n3 := append(make(bt.UTXOs, 0, 16), old(7), old(6), old(5))
 	if !unmarshal("json.Marshal(bt.UTXOs)", ldoc, &l3, in) || !unmarshal("json.Marshal(utxos.NodeJSON())", ndoc, n3.NodeJSON(), in) {
 		return
 	}
@@ -788,6 +801,16 @@ func main() {
 				for _, after := range [][]byte{{}, {0x01}, {1, 2, 3, 4, 5, 6, 7}} {
 					shapes = append(shapes, append(append(append([]byte{}, pre...), hdr...), after...))
 				}
+			}
+		}
+		// inscription envelopes behind a P2PKH prefix whose protocol tag is not the three bytes "ord": shorter, longer,
+		// empty, pushed with the long forms; and with fields missing from the end (the classifier indexes into the parts)
+		{
+			pre := append(append([]byte{0x76, 0xa9, 0x14}, r.Bytes(20)...), 0x88, 0xac)
+			for _, tag := range [][]byte{{0x01, 'o'}, {0x02, 'o', 'r'}, {0x03, 'o', 'r', 'd'}, {0x04, 'o', 'r', 'd', 'x'}, {0x00}, {0x4c, 0x00}, {0x4c, 0x01, 'o'}, {0x4c, 0x03, 'o', 'r', 'd'}, {0x51}} {
+				full := append(append(append([]byte{}, pre...), 0x00, 0x63), tag...)
+				full = append(full, 0x51, 0x0a, 't', 'e', 'x', 't', '/', 'p', 'l', 'a', 'i', 'n', 0x00, 0x05, 'h', 'e', 'l', 'l', 'o', 0x68)
+				shapes = append(shapes, full, full[:len(full)-1], full[:len(full)-7], full[:len(pre)+2+len(tag)], full[:len(pre)+2+len(tag)+1])
 			}
 		}
 		for i, sh := range shapes {
